@@ -247,7 +247,7 @@ TIERS = {
 }
 
 GEN_OPTS = {
-    "C19": {"label": "C19", "p_errors": 0.4, "p_poly": 0.1,
+    "C19": {"label": "C19", "p_errors": 0.4, "p_poly": 0.12, "p_infer_fail": 0.12,
             "shapes": ["dag", "dag", "dag", "chain", "diamond", "fanout", "fanout", "self", "cycle2"]},
     "C20": {"label": "C20", "p_errors": 0.15, "p_poly": 0.05,
             "shapes": ["dag", "dag", "chain", "diamond", "fanout", "self", "cycle2", "cycle2",
@@ -518,6 +518,7 @@ def shape_predicates(proj):
         "cycle_beyond_corpus_style": bool(members) and (has_class_in_cycle or typed_pub_in_cycle or member_in_def
                                                           or single_clause_fn_in_cycle),
         "poly": bool(re.search(r"^\.(id|tw)\w+ ", "\n".join(proj["files"].values()), re.M)),
+        "infer_fail": bool(re.search(r"^\.us\w+ x = ", "\n".join(proj["files"].values()), re.M)),
         "modules": len(proj["files"]),
     }
 
@@ -567,8 +568,11 @@ def run_check(prop, tier, seed, replay=None):
         # minimise (in parallel, bounded), then classify
         def mini(r, w, d):
             seeds = schedule_seeds(seed, prop, r["idx"], k)
-            proj, seeds2, bad, sig = minimise(prop, r["proj"], seeds, r["bad"], w, d,
-                                             budget_s=150 if tier == "quick" else 400)
+            # the budget is a number of re-builds, scaled down for projects whose builds are long
+            # (hook steps are deterministic, wall-clock is not)
+            avg_steps = max(1, sum(x["steps"] for x in r["stats"]) // max(1, len(r["stats"])))
+            budget = max(3, min(150 if tier == "quick" else 400, 6_000_000 // avg_steps))
+            proj, seeds2, bad, sig = minimise(prop, r["proj"], seeds, r["bad"], w, d, budget_s=budget)
             return {"idx": r["idx"], "proj": proj, "seeds": seeds2, "bad": bad, "sig": sig,
                     "orig_shape": r["proj"]["shape"]}
         minis = pool.map(mini, failing[:64])
